@@ -26,4 +26,11 @@ PROPS = {
                      "policies x {execute, rebuild schema, validate} is enumerated, histories are sampled; non-trivial = the library took "
                      "at least one multi-key map-iteration decision under a non-default policy or after a history; distinct = distinct "
                      "(scenario, number of order decisions) hashes"),
+    "C06": dict(level="exploration", race=False,
+                quick=dict(enum=True, seeds=4000), thorough=dict(enum=True, seconds=420),
+                rule="one evaluation = one history of Get+ExecutePlan / plan re-execution / Reset / schema replacement over a pool of "
+                     "near-collision requests under seeded cache knobs (MaxEntries 1-4 or default, Normalize, tiny MaxQueryBytes, nil "
+                     "cache); every ordered pair of pool requests (a, b, a) x Normalize on/off is enumerated, longer histories are "
+                     "sampled; after every operation the response must equal graphql.Do from scratch and the entry count must respect "
+                     "the configured bound; non-trivial = at least one cache hit or more than two operations; distinct = distinct scenarios"),
 }
